@@ -174,6 +174,15 @@ func ruleTabPriority(c *Ctx, r *R) {
 					if base {
 						continue
 					}
+					// a folded constant under E.Symbol == "kind" (the table is a package-level literal)
+					if kc, isConst := linOf(rp.Ret[0]).isConst(); isConst {
+						if km := regexp.MustCompile(`\(E\.Symbol == "(\w+)"\)`).FindStringSubmatch(condStrings(rp)); km != nil && !strings.HasPrefix(condStrings(rp), "!") {
+							refined[km[1]] = kc - prio[km[1]]
+							continue
+						}
+						okAll = false
+						continue
+					}
 					// priority["kind"] + k under E.Symbol == "kind"
 					m := regexp.MustCompile(`\["(\w+)"\] \+(\d+)>$`).FindStringSubmatch(rs)
 					if m == nil || !strings.Contains(condStrings(rp), `(E.Symbol == "`+m[1]+`")`) {
